@@ -303,6 +303,8 @@ func (r *resolver) expr(n node, s *scope) {
 		for _, p := range x.props {
 			if p.shorthand != nil {
 				r.use(s, p.shorthand)
+			} else if p.method != nil {
+				r.function(p.method, s, true)
 			} else {
 				r.expr(p.value, s)
 			}
